@@ -2073,6 +2073,7 @@ fn coalesce_expansions(expansions: Vec<Expansion>) -> Expansion {
     expansions
         .into_iter()
         .fold(Expansion::default(), |mut acc, expansion| {
+            let field_count = expansion.fields.len();
             for (i, mut field) in expansion.fields.into_iter().enumerate() {
                 match acc.fields.last_mut() {
                     Some(last) if i == 0 => {
@@ -2082,8 +2083,13 @@ fn coalesce_expansions(expansions: Vec<Expansion>) -> Expansion {
                 }
             }
 
+            // How the fields are later joined (`$*`-style or `$@`-style) is decided by the
+            // pieces that have more or fewer than one field; a single-field piece next to
+            // `"$@"` does not change it.
             // TODO(expansion): What if expansions have different concatenation values?
-            acc.concatenate = expansion.concatenate;
+            if field_count != 1 {
+                acc.concatenate = expansion.concatenate;
+            }
             acc.from_array = expansion.from_array;
 
             acc
